@@ -170,7 +170,7 @@ pub fn run(cfg: &RunCfg) -> Report {
 				prop: v.prop.into(),
 				rule: v.rule.into(),
 				detail: v.detail.clone(),
-				signature: format!("{}:{}", v.prop, v.rule),
+				signature: sig_of(v),
 				case: case.clone(),
 				index: i,
 				log: out.log.iter().rev().take(80).rev().cloned().collect(),
